@@ -27,7 +27,9 @@ from rv.ref import usb2 as U
 EP0_MPS = 64
 RESP_WINDOW = 48          # cycles the host waits for the device to start answering (fs12 tables: 2..7 + margin)
 
-SUPPORTED_NODATA = ("set_address", "set_config", "clear_halt")
+SUPPORTED_NODATA = ("set_address", "set_config", "clear_halt", "vendor_nodata")
+JUDGED_STATUS_IN = SUPPORTED_NODATA + ("vendor_out",)
+VENDOR_REQUEST = 0x51
 SUPPORTED_IN = ("get_descriptor", "get_status", "get_config")
 
 
@@ -86,6 +88,10 @@ def SET_CONFIGURATION(v):
     return U.setup_bytes(0x00, 9, v, 0, 0)
 
 
+def VENDOR(direction_in, value, wlength, recipient=0):
+    return U.setup_bytes((0x80 if direction_in else 0) | 0x40 | recipient, VENDOR_REQUEST, value, 0, wlength)
+
+
 def CLEAR_HALT(ep_addr):
     return U.setup_bytes(0x02, 1, 0, ep_addr, 0)
 
@@ -113,6 +119,14 @@ class Xfer:
             self.kind = "set_config"
         elif std and self.bm == 0x02 and self.req == 1 and self.wlen == 0 and self.value == 0:
             self.kind = "clear_halt"
+        if (self.bm & 0x60) == 0x40 and self.req == VENDOR_REQUEST:
+            # the vendor request of the check's own handler: defined for every direction / wLength combination
+            if self.wlen == 0:
+                self.kind = "vendor_nodata"
+            elif self.dir_in:
+                self.kind, self.ref = "vendor_in", bytes((self.value + i) & 0xFF for i in range(min(self.wlen, 4)))
+            else:
+                self.kind = "vendor_out"
         if self.dir_in and self.wlen:
             self.stage = "data_in"
         elif self.wlen:
@@ -252,7 +266,7 @@ class RefControl:
         if x.stage == "data_out":
             x.stage = "status_in"          # first IN token ends an OUT data stage
         if x.stage == "status_in":
-            if not (x.legal and x.supported and x.kind in SUPPORTED_NODATA):
+            if not (x.legal and x.supported and x.kind in JUDGED_STATUS_IN):
                 if resp["kind"] == "handshake" and resp["pid"] == U.STALL:
                     x.stalled = x.done = True
                 elif resp["kind"] == "data" and acked:
@@ -301,7 +315,17 @@ class RefControl:
             x.legal = False               # wrong direction
             return True
         elif x.stage == "data_out":
-            return True                   # OUT data stage: only unsupported requests have one (C10)
+            if not (x.legal and x.kind == "vendor_out"):
+                return True               # OUT data stage of requests the device does not support (C10)
+            if resp["kind"] == "handshake" and resp["pid"] == U.NAK:
+                self.res.bin("ep0_nak")
+                return True
+            self.res.event("out_data_packets_judged")
+            if not (resp["kind"] == "handshake" and resp["pid"] == U.ACK):
+                self.viol("data_stage_out_not_acked", "%s: OUT data packet (%d bytes) answered with %s" % (x.name(), len(payload), brief(resp)))
+                return False
+            x.offset += len(payload)
+            return True
         if x.stage == "status_out":
             if not (x.legal and x.supported and pid == U.DATA1 and len(payload) == 0):
                 x.legal = False
@@ -378,6 +402,7 @@ class Session:
         self.report = report       # False: protocol contradictions only stop the session (c08 judges other things)
         self.muted = []            # (symptom, detail) of contradictions that were not reported
         self.extra_foreign = []    # extra generator functions `foreign()` may pick (c08: address probes)
+        self.vendor_action = None  # callable returning the vendor handler's action counter (c07)
 
     # -------------------------------------------------------------- judging glue
     def _viol(self, symptom, detail):
@@ -677,6 +702,61 @@ class Session:
             break
         return x.done and not self.episode_failed
 
+    def transfer_out(self, s8, *, p_inter=0.45, p_noack=0.2):
+        """Host-to-device transfer with an OUT data stage (single packets of <= 8 bytes), then the IN status stage."""
+        rng, ref = self.rng, self.ref
+        a = ref.addr
+        ok = yield from self.w_setup(a, s8)
+        if not ok:
+            return False
+        x = ref.cur
+        yield from self.interleave("after_setup_out", p_inter)
+        toggle, naks = 1, 0
+        while x.offset < x.wlen:
+            n = min(8, x.wlen - x.offset)
+            ok, r = yield from self.w_out(a, 0, U.DATA1 if toggle else U.DATA0, bytes(rng.randrange(256) for _ in range(n)))
+            if not ok:
+                return False
+            if r["kind"] == "handshake" and r["pid"] == U.NAK:
+                naks += 1
+                if naks > 12:
+                    self._viol("data_stage_nak_forever", "%s: NAK %d times" % (x.name(), naks))
+                    return False
+                continue
+            toggle ^= 1
+            yield from self.interleave("between_out_data_packets", p_inter)
+        ok = yield from self._status_in(x, p_inter, p_noack)
+        return ok
+
+    def _status_in(self, x, p_inter, p_noack):
+        rng, a = self.rng, self.ref.addr
+        before = self.vendor_action() if (self.vendor_action and x.kind == "vendor_nodata") else None
+        naks = tries = 0
+        while not x.done:
+            noack = rng.random() < p_noack and tries < 3
+            ok, r = yield from self.w_in(a, 0, "none" if noack else "ack")
+            if not ok:
+                return False
+            tries += 1
+            if r["kind"] == "handshake" and r["pid"] == U.NAK:
+                naks += 1
+                if naks > 12:
+                    self._viol("status_stage_nak_forever", "%s: NAK %d times" % (x.name(), naks))
+                    return False
+                continue
+            if r["kind"] != "data":
+                return False
+            if noack:
+                self.res.bin("status_zlp_unacked_then_retried")
+                yield from self.interleave("before_status_retry", p_inter, allow_ack=self.foreign_ack_in_windows)
+        if before is not None and not self.episode_failed:
+            yield from self.host.idle(4)
+            self.res.event("vendor_actions_judged")
+            got = (self.vendor_action() - before) & 0xFF
+            if got != 1:
+                self._viol("handler_action_count_wrong", "%s completed: the handler saw %d ACKed status ZLPs, expected 1" % (x.name(), got))
+        return not self.episode_failed
+
     def transfer_nodata(self, s8, *, p_inter=0.45, p_noack=0.2):
         rng, ref = self.rng, self.ref
         a = ref.addr
@@ -684,6 +764,10 @@ class Session:
         if not ok:
             return False
         x = ref.cur
+        if x.kind == "vendor_nodata":
+            yield from self.interleave("after_setup_nodata", p_inter, allow_ack=self.foreign_ack_in_windows)
+            ok = yield from self._status_in(x, p_inter, p_noack)
+            return ok
         yield from self.interleave("after_setup_nodata", p_inter, allow_ack=self.foreign_ack_in_windows)
         naks = 0
         tries = 0
@@ -709,6 +793,17 @@ class Session:
     def random_supported(self):
         """(setup bytes, 'in'|'nodata', bin name) of a request with a known reference result."""
         rng = self.rng
+        if rng.random() < 0.22:
+            v = rng.randrange(65536)
+            k = rng.choice(["in_data", "in_wlength0", "in_wlength0", "out_data", "out_wlength0"])
+            rcp = rng.choice([0, 0, 1])
+            if k == "in_data":
+                return VENDOR(True, v, rng.choice([1, 2, 3, 4, 5, 64, 256, 0x1234])), "in", "xfer_vendor_in_data"
+            if k == "in_wlength0":
+                return VENDOR(True, v, 0, rcp), "nodata", "xfer_vendor_in_wlength0"
+            if k == "out_data":
+                return VENDOR(False, v, rng.choice([1, 2, 8, 9, 16, 17])), "out", "xfer_vendor_out_data"
+            return VENDOR(False, v, 0, rcp), "nodata", "xfer_vendor_out_wlength0"
         r = rng.random()
         if r < 0.42:
             key = rng.choice(sorted(self.descs))
@@ -739,6 +834,8 @@ class Session:
             x_total = len(self.descs.get((s8[3], s8[2]), b"")) if s8[1] == 6 else 0
             early = x_total > 64 and self.rng.random() < 0.15
             ok = yield from self.transfer_in(s8, early=early, **kw)
+        elif shape == "out":
+            ok = yield from self.transfer_out(s8, **kw)
         else:
             ok = yield from self.transfer_nodata(s8, **kw)
         if ok:
